@@ -389,7 +389,10 @@ class EBBMotionWrap(ebb3_serial.EBB3):
         """
         if (self.port is None) or (self.err is not None):
             return None, None
-        split_string = self.query('QC').split(",", 1)
+        response = self.query('QC')
+        if response is None:    # Query failed; the error has been recorded.
+            return None, None
+        split_string = response.split(",", 1)
         split_len = len(split_string)
         if split_len > 1:
             return int(split_string[0]), int(split_string[1])
